@@ -37,6 +37,9 @@ fn any_state() -> (OutgoingConnectionFlowController, StreamFlowController, Strea
         let hi = vi(M);
         kani::assume(hi >= acq);
         let max = vi(M);
+        // a stream never holds connection credit beyond its own limit (what RESET_STREAM reports as
+        // final size): established by new(), re-asserted after every step below
+        kani::assume(acq <= max);
         let st: u8 = kani::any();
         let mut s = StreamFlowController::new(conn.clone(), max);
         s.acquired_connection_flow_controller_window = acq;
@@ -108,6 +111,9 @@ fn verif_tx_flow_step() {
     assert!(conn.acquired_window().as_u64() as u128 == a0 as u128 + a1 as u128);
     // the second stream's stream limit is untouched
     assert!(s1.max_stream_data.as_u64() == pre.m1);
+    // C03 (final size of a RESET_STREAM = credit held): never beyond the largest MAX_STREAM_DATA
+    assert!(a0 <= max_s0);
+    assert!(a0 <= s0.max_stream_data.as_u64());
 }
 
 // finishing / resetting a stream silences its flow-control signalling: whatever blocked it
@@ -180,6 +186,8 @@ fn verif_tx_flow_three_ops() {
         let a1 = s1.acquired_connection_flow_controller_window().as_u64();
         assert!(a0 as u128 + a1 as u128 <= max_data.as_u64() as u128);
         assert!(conn.total_window() == max_data);
+        // credit held (= final size a RESET_STREAM would report) within the stream limits received
+        assert!(a0 <= max_s0.as_u64() && a1 <= max_s1.as_u64());
     }
     kani::cover!(s0.acquired_connection_flow_controller_window().as_u64() > 0 && s1.acquired_connection_flow_controller_window().as_u64() > 0, "both streams hold credit");
 }
